@@ -10,6 +10,7 @@ use crate::src::Src;
 use crate::{check, nopanic, tryp};
 use bc_components::{DigestProvider, Nonce, SymmetricKey};
 use bc_envelope::prelude::*;
+use bc_envelope::known_values;
 
 pub fn prop() -> Prop {
     Prop {
@@ -227,6 +228,18 @@ pub fn run(data: &[u8], ctx: &mut Ctx) -> Outcome {
     let wd = nopanic!(ctx, we.decrypt(&key), "decrypt", "C08/decrypt");
     let wd = tryp!(ctx, wd.map_err(|x| format!("decrypt() with the right key failed: {}", x)), "decrypt", "C08/decrypt");
     check!(ctx, wd.to_cbor_data() == orig_bytes && wd.is_identical_to(&e), "decrypt", "C08/decrypt/identical", "decrypt(encrypt(e)) differs from e = {}", m.show());
+    // the encrypted whole with assertions added afterwards (a note, a signature, a recipient): decrypt()
+    // = decrypt_subject + unwrap still returns the original
+    {
+        let decorated = we.add_assertion(known_values::NOTE, "added to the encrypted form").add_assertion("C08-later", 1);
+        let dd = nopanic!(ctx, decorated.decrypt(&key), "decrypt", "C08/decrypt/decorated");
+        let dd = tryp!(ctx, dd.map_err(|x| format!("decrypt() of an encrypted whole that was given assertions afterwards failed: {}", x)), "decrypt", "C08/decrypt/decorated");
+        check!(ctx, dd.to_cbor_data() == orig_bytes, "decrypt", "C08/decrypt/decorated", "decrypt() of a decorated encrypted whole differs from the original");
+        let dbad = nopanic!(ctx, decorated.decrypt(&other), "wrong-key", "C08/wrong-key");
+        check!(ctx, dbad.is_err(), "wrong-key", "C08/wrong-key", "decrypt() of a decorated encrypted whole succeeded with a different key");
+        let rt = nopanic!(ctx, Envelope::try_from_cbor_data(decorated.to_cbor_data()).map_err(|x| x.to_string()).and_then(|x| x.decrypt(&key).map_err(|y| y.to_string())).map(|x| x.to_cbor_data()), "decrypt", "C08/decrypt/decorated");
+        check!(ctx, rt.as_ref() == Ok(&orig_bytes), "decrypt", "C08/decrypt/decorated", "decrypt() after encode/decode of a decorated encrypted whole: {:?}", rt.as_ref().map(|_| "other bytes"));
+    }
     let wbad = nopanic!(ctx, we.decrypt(&other), "wrong-key", "C08/wrong-key");
     check!(ctx, wbad.is_err(), "wrong-key", "C08/wrong-key", "decrypt() succeeded with a different key");
 
